@@ -7,6 +7,7 @@ CONSTANTS
  TxSize <- U_TxSize
  TxRbf <- U_TxRbf
  TxCls <- U_TxCls
+ TxLock <- U_TxLock
  TxWit <- U_TxWit
  SlotParent <- U_SlotParent
  NFund = 2
@@ -21,6 +22,7 @@ CONSTANTS
  MaxReorgTxs = 0
  Standalone = FALSE
  DisconnectEvicts = TRUE
+ Standard = FALSE
  Script <- U_Script
 INIT Init
 NEXT Next
